@@ -520,6 +520,9 @@ func (b *Bridge) Ops(s *HState) []engine.Op {
 	if on("Prices") {
 		ops = append(ops, engine.OpN("Prices"))
 	}
+	if on("Holders") {
+		ops = append(ops, engine.OpN("Holders"))
+	}
 	if on("ColdStorage") {
 		for _, ch := range c.SendChains {
 			ops = append(ops, engine.OpN("ColdStorage", ch, c.SendDenoms[0]))
@@ -633,6 +636,12 @@ func (b *Bridge) Do(in *hub.Instance, gg Ghost, op engine.Op, st *engine.Step) {
 			in.DeliverMsg(&oracletypes.MsgPriceClaim{Epoch: epoch, Prices: &oracletypes.Prices{List: pl}, Orchestrator: v.Acc.String()})
 		}
 		st.Obs = "prices"
+	case "Holders":
+		epoch := in.Oracle.GetCurrentEpoch(in.Ctx())
+		for _, v := range b.Vals {
+			in.DeliverMsg(&oracletypes.MsgHoldersClaim{Epoch: epoch, Holders: &oracletypes.Holders{List: []*oracletypes.Holder{{Address: b.Usr[0].String(), Value: sdk.NewInt(32).Mul(sdk.NewInt(1_000_000_000_000_000_000))}}}, Orchestrator: v.Acc.String()})
+		}
+		st.Obs = "holders"
 	case "ColdStorage":
 		ch, d := op.S[0], op.S[1]
 		err := in.Proposal(&mhubtypes.ColdStorageTransferProposal{ChainId: ch, Amount: sdk.NewCoins(sdk.NewInt64Coin(d, 777))})
@@ -933,9 +942,6 @@ func bridgeCfgFor(prop, tier string) (BridgeCfg, engine.Config) {
 		cfg.Fees = []int64{7}
 		cfg.DepChains = []string{"ethereum", "bsc"}
 		cfg.Seeds = [][]engine.Op{seedObserved, seedTwoTokenBatches}
-		if !thorough {
-			ec.MaxDepth = 5
-		}
 	case "C15":
 		cfg.Ops = opsSet("Next", "Send", "ReqBatch", "Exec", "Deposit", "Cancel", "Confirm", "Prices")
 		cfg.Fees = []int64{7}
@@ -985,11 +991,22 @@ func init() {
 		a.Seeds = [][]engine.Op{seedObserved}
 		bb.Seeds = [][]engine.Op{seedTwoTokenBatches}
 		ecb := ec
-		ecb.MaxDepth = ec.MaxDepth - 1
 		ecb.Deadline = ec.Deadline / 2
 		return []MultiCase{{Name: "from observed heights", Spec: NewBridge(a), Cfg: ec}, {Name: "from two pending batches of different tokens on ethereum", Spec: NewBridge(bb), Cfg: ecb}}, bridgeAssumptions(cfg)
 	}))
-	for _, p := range []string{"C04", "C10", "C12", "C15"} {
+	Register("C15", MultiRunner(func(tier string) ([]MultiCase, []string) {
+		cfg, ec := bridgeCfgFor("C15", tier)
+		// oracle state with only one of the two lists: holders adopted, no prices ever attested
+		ho := cfg
+		ho.NoPrices = true
+		ho.Ops = opsSet("Next", "Send", "Prices", "Holders")
+		ho.Seeds = [][]engine.Op{{engine.OpN("Holders"), engine.OpN("Next", 5), engine.OpN("Next", 5), engine.OpN("Next", 5), engine.OpN("Next", 5), engine.OpN("Next", 5)}}
+		ech := ec
+		ech.MaxDepth = 3
+		ech.Deadline = ec.Deadline / 3
+		return []MultiCase{{Name: "bridge histories, oracle prices from genesis", Spec: NewBridge(cfg), Cfg: ec}, {Name: "holders adopted, no prices", Spec: NewBridge(ho), Cfg: ech}}, bridgeAssumptions(cfg)
+	}))
+	for _, p := range []string{"C04", "C10", "C12"} {
 		prop := p
 		Register(prop, BFSRunner(func(tier string) (Spec, engine.Config, []string) {
 			cfg, ec := bridgeCfgFor(prop, tier)
